@@ -1,5 +1,5 @@
 (* C20 — Operation pools keep what they are given and never panic.
-   Statements only; proofs live in Pool/PoolMaps.v, PoolBits.v, PoolAtt.v, PoolSync.v, PoolProofs.v.
+   Statements only; proofs live in Pool/PoolMaps.v, PoolBits.v, PoolAtt.v, PoolSync.v, PoolSafe.v, PoolProofs.v.
    Impl = Pool/PoolModel.v (eth2/pool/*.go + attestation_bits.go with the repairs of fixes/C20-*.diff),
    Spec = Pool/PoolSpec.v (lists of added items).  Quantifier of every theorem: ALL operation sequences [ops].
    [a_answers ops op o] / [k_answers] / [s_answers]: after the calls [ops] on a fresh pool, the call [op] answers [o]. *)
@@ -30,6 +30,13 @@ Print Assumptions C20_add_no_panic_slashings_exits.
 Theorem C20_add_no_panic_sync : forall ops, Forall sop_ok ops -> ~ In SRPanic (sp_run fixed sp_init ops).
 Proof. exact add_no_panic_sync. Qed.
 Print Assumptions C20_add_no_panic_sync.
+(* ... even for arguments outside the domain: byte strings that are no bit lists, any committee, any buffer index, any slot *)
+Theorem C20_never_panics_attestations : forall ops, ~ In ARPanic (ap_run fixed ap_init ops).
+Proof. exact never_panics_attestations. Qed.
+Print Assumptions C20_never_panics_attestations.
+Theorem C20_never_panics_sync : forall ops, ~ In SRPanic (sp_run fixed sp_init ops).
+Proof. exact never_panics_sync. Qed.
+Print Assumptions C20_never_panics_sync.
 (* stores it or returns an error: a sync message/contribution is stored iff its slot is cur-1, cur or cur+1 (mod 2^64) *)
 Theorem C20_sync_add_stores_or_errors : forall s m,
   snd (ss_add_msg s m) = in_window (ss_cur s) (sm_slot m) /\
